@@ -70,7 +70,16 @@ type CastMatcher struct {
 
 // Match implements the Matcher interface.
 func (m CastMatcher) Match(pattern, fact interface{}, bs Bindings) ([]Bindings, error) {
-	return m.Matcher.Match(cast(pattern), cast(fact), bs)
+	// (The values of the given bindings take part in the matching,
+	// too: a variable that is bound already is compared with the data.)
+	var given Bindings
+	if bs != nil {
+		given = make(Bindings, len(bs))
+		for k, v := range bs {
+			given[k] = cast(v)
+		}
+	}
+	return m.Matcher.Match(cast(pattern), cast(fact), given)
 }
 
 func cast(iface interface{}) interface{} {
